@@ -906,6 +906,10 @@ func (x *Exec) siteClauses(fr *Frame, st *State, call *ssa.CallCommon, instr ssa
 		if c.Callee != callee && !strings.HasSuffix(callee, "."+c.Callee) {
 			continue
 		}
+		if x.siteMatched == nil {
+			x.siteMatched = map[*Clause]bool{}
+		}
+		x.siteMatched[c] = true
 		env := map[string]Val{}
 		// names of the inlined frames between the top function and this call shadow the top function's
 		var chain []*Frame
